@@ -94,7 +94,9 @@ pub fn run(a: &Args) {
             let scheme = sh["scheme"].as_str().unwrap();
             let tokn = r.next() % 100000;
             let user = if sh["hasuser"].as_bool().unwrap() {
-                Some(match r.below(4) {
+                Some(match r.below(6) {
+                    4 => format!("a%3Ab{}", tokn),
+                    5 => format!("U{}", tokn),
                     0 => format!("usr{}", tokn),
                     1 => format!("adm%40corp{}", tokn),
                     2 => format!("u-._~{}", tokn),
@@ -118,7 +120,7 @@ pub fn run(a: &Args) {
                 "v4" => r.pick(&["192.168.1.10", "127.0.0.1", "10.0.0.255", "8.8.8.8"]).to_string(),
                 _ => r.pick(&["[::1]", "[fe80::1]", "[2001:db8::8a2e:370:7334]", "[::ffff:10.0.0.1]"]).to_string(),
             };
-            let port: u32 = if sh["port"].as_u64().unwrap() == 0 { 0 } else { *r.pick(&[1u32, 631, 443, 80, 65535, 8631, 8443, 6310]) };
+            let port: u32 = if sh["port"].as_u64().unwrap() == 0 { 0 } else { *r.pick(&[1u32, 9, 631, 443, 80, 65535, 8631, 8443, 6310, 65534, 10000]) };
             let path = match c["pathclass"].as_str().unwrap() {
                 "" => "".to_string(),
                 "/" => "/".to_string(),
@@ -126,7 +128,10 @@ pub fn run(a: &Args) {
                 _ => r.pick(&["/a%20b/%E2%9C%93", "/%41%2F", "/printers/%C3%BC", "/p%3Fq"]).to_string(),
             };
             let query = if sh["hasq"].as_bool().unwrap() {
-                Some(match r.below(4) {
+                Some(match r.below(7) {
+                    4 => format!("mail=a@b.c&t={}", tokn),
+                    5 => format!("frag=%23x{}&slash=%2F", tokn),
+                    6 => format!("{}", tokn),
                     0 => format!("qz{}=1", tokn),
                     1 => format!("a=b&token=T{}", tokn),
                     2 => format!("k=S3CR3T%2F{}", tokn),
